@@ -27,8 +27,9 @@ RULE = ('References are generated structurally as [stage<N>.]head[/path]:method,
         'head in 12 component-like names (A AA BA AB A-B A.B x A1B A2 0#A 1#A.B stage.B; explicit stage prefixes '
         'none/0/1/2 [+10 thorough]) + reserved folders (input data bin conf) + application-dependency folders '
         '(app tool.v2) + manifest first segments (mf a c) + absolute paths (/abs/dir /abs) + variables (%(v)s %(v.w)s), '
-        'no prefix for non-names; path in {none, f.txt, d/f.txt, d/e/f.txt, d.e/f-1.txt, b/f.txt, sub/f.txt} '
-        '[+ *.txt, data/f.txt, stage1.A/f.txt thorough]; all 8 reference methods. Contexts = 4 known-component sets '
+        'no prefix for non-names; path in {none, f.txt, d/f.txt, d/e/f.txt, d.e/f-1.txt, b/f.txt, sub/f.txt, '
+        'run-%(v)s/f.txt, frames[3]} (the last two put a variable / an array index into the file path, not the '
+        'producer) [+ *.txt, data/f.txt, stage1.A/f.txt, %(v.w)s.txt, d/%(v)s[0]/f.txt thorough]; all 8 reference methods. Contexts = 4 known-component sets '
         '(empty; two disjoint rotations; same name in two stages) x 4 manifests (empty; top-level + nested keys a/b, '
         'c/d/e; top-level a + nested mf/sub; keys x and A-B/sub that are component names elsewhere) x 2 '
         'application-dependency lists [3 thorough] x owner stage 0/1 [+10 thorough], minus contexts where a known '
@@ -36,7 +37,8 @@ RULE = ('References are generated structurally as [stage<N>.]head[/path]:method,
         'round trips, DataReference/ComponentIdentifier relative vs absolute); layer fn: every (reference, context) '
         'through the 5 classification/expansion functions; layer manifest: Manifest.top_level_folders of every context; '
         'layer doc: per (context, owner stage) FlowIR documents with one consumer component per reference, paths '
-        '{none, b/f.txt, sub/f.txt} x methods {ref, copy} (quick) / 5 paths x all 8 methods (thorough), variable heads '
+        '{none, b/f.txt, sub/f.txt, run-%(v)s/f.txt} x methods {ref, copy} (quick) / 7 paths x all 8 methods '
+        '(thorough), the variables v and v.w defined in the document, variable heads '
         'left out, references the statement does not classify kept only without path. A case is non-trivial when the '
         'statement fixes its class (component / not-a-component) or it has a stage prefix or a path; distinct = '
         'distinct (layer, reference string, context id, owner stage). Failing cases that differ from an already recorded '
@@ -58,6 +60,8 @@ ASSUMPTIONS = [
     'documents a ValueError for malformed stage names, the statement does not say what a reference to them means',
     'in layer doc the "variable" heads are not used (the loader substitutes variables before validating) and '
     'arguments contain no references (C10 owns command lines)',
+    'file paths with an array index ("frames[3]") are only used in layers str/fn: inside a document "[N]" is FlowIR '
+    'array-access syntax that the loader resolves before it looks at references',
     'uid escaping (ComponentIdentifier.to_uid) has no inverse in the code base and is not judged',
 ]
 
@@ -66,10 +70,11 @@ APPDEP_HEADS = ['app', 'tool.v2']
 MANIFEST_HEADS = ['mf', 'a', 'c']
 ABS_HEADS = ['/abs/dir', '/abs']
 VAR_HEADS = ['%(v)s', '%(v.w)s']
-PATHS_Q = [None, 'f.txt', 'd/f.txt', 'd/e/f.txt', 'd.e/f-1.txt', 'b/f.txt', 'sub/f.txt']
-PATHS_T = PATHS_Q + ['*.txt', 'data/f.txt', 'stage1.A/f.txt']
-DOC_PATHS_Q = [None, 'b/f.txt', 'sub/f.txt']
-DOC_PATHS_T = [None, 'f.txt', 'b/f.txt', 'sub/f.txt', 'd/e/f.txt']
+# the last two: a variable / an array index inside the FILE PATH (the producer stays what the first segment says)
+PATHS_Q = [None, 'f.txt', 'd/f.txt', 'd/e/f.txt', 'd.e/f-1.txt', 'b/f.txt', 'sub/f.txt', 'run-%(v)s/f.txt', 'frames[3]']
+PATHS_T = PATHS_Q + ['*.txt', 'data/f.txt', 'stage1.A/f.txt', '%(v.w)s.txt', 'd/%(v)s[0]/f.txt']
+DOC_PATHS_Q = [None, 'b/f.txt', 'sub/f.txt', 'run-%(v)s/f.txt']
+DOC_PATHS_T = [None, 'f.txt', 'b/f.txt', 'sub/f.txt', 'd/e/f.txt', 'run-%(v)s/f.txt', '%(v.w)s.txt']
 DOC_METHODS_Q = ['ref', 'copy']
 
 KNOWN_SETS = [
@@ -501,7 +506,8 @@ def build_doc(ctx, refs_by_stage):
             consumers[(st, name)] = ref
             comps.append({'name': name, 'stage': st, 'command': {'executable': 'ls', 'arguments': '-l'},
                           'references': [R.spell(ref)]})
-    doc = {'components': comps}
+    # the variables that file paths may mention are defined (validation resolves them before it looks at references)
+    doc = {'variables': {'default': {'global': {'v': 'val', 'v.w': 'valw'}}}, 'components': comps}
     if ctx['appdeps']:
         doc['application-dependencies'] = {'default': list(ctx['appdeps'])}
     return doc, consumers
